@@ -1,95 +1,20 @@
 // C12 (first half): ticket_spinlock and simple_spinlock under a harness-owned scheduler + TSan.
-// spinlock.hpp uses the __atomic_* builtins and `pause`; function-like macros of the same names
-// add the schedule points (a macro does not re-expand its own name) without touching frigg.
+// Whatever spinlock.hpp uses - the __atomic_* builtins and `pause` today, std::atomic, fences - is interposed by
+// engine/verif_atomic_begin.hpp (schedule points, clocks) without touching frigg.
 #include <atomic>
 #include <vector>
 #include <string>
 #include <algorithm>
 #include <cstring>
 #include "../engine/dsched.hpp"
-namespace hooks {
-	// release clocks of the lock words (vclock.hpp), keyed by address; cleared for every case
-	struct RelSlot { const void *key; vclock::Rel rel; };
-	inline RelSlot g_rels[64];
-	VCLOCK_NOTSAN inline void rels_clear() { for(auto &r : g_rels) { r.key = nullptr; r.rel = vclock::Rel(); } }
-	VCLOCK_NOTSAN inline vclock::Rel &rel_of(const volatile void *p) { for(auto &r : g_rels) { if(r.key == (const void *)p) return r.rel; if(!r.key) { r.key = (const void *)p; return r.rel; } } return g_rels[63].rel; }
-	// The order in which tickets are drawn is the order of the first successful read-modify-write that each lock() call performs on the
-	// lock (whatever builtin the implementation uses for it, whatever the width or encoding of the ticket): draw_seq numbers them.
-	inline uint64_t g_rmw_seq = 0;
-	inline thread_local uint64_t draw_seq = 0;
-	VCLOCK_NOTSAN inline void note_rmw() { uint64_t n = ++g_rmw_seq; if(!draw_seq) draw_seq = n; }
-#define VERIF_RMW(name) template<typename P, typename V> inline auto name(P p, V v, int mo) { dsched::point(); rel_of(p).on_rmw((std::memory_order)mo); vclock::mirror_write(p, (std::memory_order)mo); auto r = __atomic_##name(p, v, mo); vclock::mirror_read(p, (std::memory_order)mo); note_rmw(); return r; }
-	VERIF_RMW(fetch_add) VERIF_RMW(fetch_sub) VERIF_RMW(fetch_or) VERIF_RMW(fetch_and) VERIF_RMW(fetch_xor) VERIF_RMW(fetch_nand)
-	VERIF_RMW(add_fetch) VERIF_RMW(sub_fetch) VERIF_RMW(or_fetch) VERIF_RMW(and_fetch) VERIF_RMW(xor_fetch) VERIF_RMW(nand_fetch) VERIF_RMW(exchange_n)
-#undef VERIF_RMW
-	template<typename P> inline auto load_n(P p, int mo) { dsched::point(); auto r = __atomic_load_n(p, mo); rel_of(p).on_load((std::memory_order)mo); vclock::mirror_read(p, (std::memory_order)mo); return r; }
-	template<typename P, typename R> inline void load(P p, R ret, int mo) { dsched::point(); __atomic_load(p, ret, mo); rel_of(p).on_load((std::memory_order)mo); vclock::mirror_read(p, (std::memory_order)mo); }
-	template<typename P, typename V> inline void store_n(P p, V v, int mo) { dsched::point(); rel_of(p).on_store((std::memory_order)mo); vclock::mirror_write(p, (std::memory_order)mo); __atomic_store_n(p, v, mo); }
-	template<typename P, typename V> inline void store(P p, V v, int mo) { dsched::point(); rel_of(p).on_store((std::memory_order)mo); vclock::mirror_write(p, (std::memory_order)mo); __atomic_store(p, v, mo); }
-	template<typename P, typename V, typename R> inline void exchange(P p, V v, R ret, int mo) { dsched::point(); rel_of(p).on_rmw((std::memory_order)mo); vclock::mirror_write(p, (std::memory_order)mo); __atomic_exchange(p, v, ret, mo); vclock::mirror_read(p, (std::memory_order)mo); note_rmw(); }
-	// compare-exchange: a read-modify-write with the success order when it succeeds, a load with the failure order when it fails
-	template<typename P, typename E, typename V> inline bool compare_exchange_n(P p, E e, V v, bool weak, int smo, int fmo) {
-		dsched::point();
-		auto cur = __atomic_load_n(p, __ATOMIC_RELAXED);
-		if(cur == *e) { rel_of(p).on_rmw((std::memory_order)smo); vclock::mirror_write(p, (std::memory_order)smo); bool ok = __atomic_compare_exchange_n(p, e, v, false, smo, fmo); vclock::mirror_read(p, (std::memory_order)smo); if(ok) note_rmw(); return ok; }
-		(void)weak; *e = __atomic_load_n(p, fmo); rel_of(p).on_load((std::memory_order)fmo); vclock::mirror_read(p, (std::memory_order)fmo); return false;
-	}
-	template<typename P> inline bool test_and_set(P p, int mo) { dsched::point(); rel_of(p).on_rmw((std::memory_order)mo); vclock::mirror_write(p, (std::memory_order)mo); bool r = __atomic_test_and_set(p, mo); vclock::mirror_read(p, (std::memory_order)mo); note_rmw(); return r; }
-	template<typename P> inline void clear(P p, int mo) { dsched::point(); rel_of(p).on_store((std::memory_order)mo); vclock::mirror_write(p, (std::memory_order)mo); __atomic_clear(p, mo); }
-	inline void thread_fence(int mo) { dsched::point(); __atomic_thread_fence(mo); vclock::on_fence((std::memory_order)mo); vclock::mirror_fence((std::memory_order)mo); }
-}
-#define __atomic_fetch_add(p, v, mo) hooks::fetch_add(p, v, mo)
-#define __atomic_fetch_sub(p, v, mo) hooks::fetch_sub(p, v, mo)
-#define __atomic_fetch_or(p, v, mo) hooks::fetch_or(p, v, mo)
-#define __atomic_fetch_and(p, v, mo) hooks::fetch_and(p, v, mo)
-#define __atomic_fetch_xor(p, v, mo) hooks::fetch_xor(p, v, mo)
-#define __atomic_fetch_nand(p, v, mo) hooks::fetch_nand(p, v, mo)
-#define __atomic_add_fetch(p, v, mo) hooks::add_fetch(p, v, mo)
-#define __atomic_sub_fetch(p, v, mo) hooks::sub_fetch(p, v, mo)
-#define __atomic_or_fetch(p, v, mo) hooks::or_fetch(p, v, mo)
-#define __atomic_and_fetch(p, v, mo) hooks::and_fetch(p, v, mo)
-#define __atomic_xor_fetch(p, v, mo) hooks::xor_fetch(p, v, mo)
-#define __atomic_nand_fetch(p, v, mo) hooks::nand_fetch(p, v, mo)
-#define __atomic_load_n(p, mo) hooks::load_n(p, mo)
-#define __atomic_load(p, r, mo) hooks::load(p, r, mo)
-#define __atomic_store_n(p, v, mo) hooks::store_n(p, v, mo)
-#define __atomic_store(p, v, mo) hooks::store(p, v, mo)
-#define __atomic_exchange_n(p, v, mo) hooks::exchange_n(p, v, mo)
-#define __atomic_exchange(p, v, r, mo) hooks::exchange(p, v, r, mo)
-#define __atomic_compare_exchange_n(p, e, v, w, smo, fmo) hooks::compare_exchange_n(p, e, v, w, smo, fmo)
-#define __atomic_test_and_set(p, mo) hooks::test_and_set(p, mo)
-#define __atomic_clear(p, mo) hooks::clear(p, mo)
-#define __atomic_thread_fence(mo) hooks::thread_fence(mo)
-#define __builtin_ia32_pause() dsched::spin_yield()
+#include "../engine/verif_atomic_begin.hpp"
 #include <frg/spinlock.hpp>
-#undef __atomic_fetch_add
-#undef __atomic_fetch_sub
-#undef __atomic_fetch_or
-#undef __atomic_fetch_and
-#undef __atomic_fetch_xor
-#undef __atomic_fetch_nand
-#undef __atomic_add_fetch
-#undef __atomic_sub_fetch
-#undef __atomic_or_fetch
-#undef __atomic_and_fetch
-#undef __atomic_xor_fetch
-#undef __atomic_nand_fetch
-#undef __atomic_load_n
-#undef __atomic_load
-#undef __atomic_store_n
-#undef __atomic_store
-#undef __atomic_exchange_n
-#undef __atomic_exchange
-#undef __atomic_compare_exchange_n
-#undef __atomic_test_and_set
-#undef __atomic_clear
-#undef __atomic_thread_fence
-#undef __builtin_ia32_pause
+#include "../engine/verif_atomic_end.hpp"
 #include "../engine/verif.hpp"
 
 const char *verif_harness = "spin_conc";
 using namespace verif;
-void verif_case_reset() { vclock::reset(); hooks::rels_clear(); hooks::g_rmw_seq = 0; }
+void verif_case_reset() { vclock::reset(); }
 
 namespace {
 struct Shared {
@@ -126,11 +51,11 @@ void run_lock(Ctx &c, const std::vector<uint32_t> *explicit_choices) {
 	std::vector<std::function<void()>> bodies;
 	for(unsigned k = 0; k < nthreads; k++) bodies.push_back([=] {
 		for(unsigned i = 0; i < nacq[k]; i++) {
-			hooks::draw_seq = 0;
+			vclock::draw_seq = 0;
 			lk->lock();
 			{ dsched::Ignore ig;
 			  if(sh->inside++ && sh->error.empty()) sh->error = "two threads are inside the critical section at once";
-			  sh->entries.push_back({hooks::draw_seq, (int)k}); }
+			  sh->entries.push_back({vclock::draw_seq, (int)k}); }
 			bool locked = lk->is_locked();
 			if(!vclock::hb(sh->last_section)) { dsched::Ignore ig; if(sh->error.empty()) sh->error = "the previous critical section does not happen before this one: the acquiring loads read from no release sequence (C++20 [intro.races]/5) headed by the previous holder's unlock"; }
 			for(int j = 0; j < 4; j++) sh->data[j] += 1;       // plain accesses: a race here means the lock does not order them
